@@ -156,7 +156,7 @@ def match_known(known, prop, signature):
     for k in known:
         if k.get("status") != "known" or k.get("property") != prop:
             continue
-        if signature == k["signature"]:
+        if signature == k.get("signature") or signature in k.get("signatures", ()):
             return k
     return None
 
@@ -413,8 +413,22 @@ def main():
         exit_code = 2
     if len(unlisted) > max_report:
         print(f"({len(unlisted) - max_report} further distinct violation signatures not minimised: {unlisted[max_report:]})")
-    for sig, (k, n) in sorted(known_hits.items()):
-        print(f"KNOWN-FINDING: property={prop} {k['what']} [signature={sig} occurrences={n}]")
+    # every listed finding is replayed from its stored scenario on the tree under test: the line is
+    # printed while (and only while) the tree still shows it, whether or not the batch reached it
+    for k in known:
+        if k.get("status") != "known" or k.get("property") != prop:
+            continue
+        hits = {sig: n for sig, (kk, n) in known_hits.items() if kk is k}
+        still = bool(hits)
+        if not still and k.get("replay"):
+            with open(os.path.join(VERIF, k["replay"])) as f:
+                rep = json.load(f)
+            rr = _exec_sequence_job((prop, rep.get("preceding_scenarios", []) + [rep["scenario"]], cap_s))
+            still = any(match_known([k], prop, x["signature"]) for x in rr["violations"])
+        if still:
+            print(f"KNOWN-FINDING: property={prop} {k['what']} [occurrences in this batch: {sum(hits.values())} under {len(hits)} signature(s)]")
+        else:
+            print(f"note: the listed finding '{k.get('id', k.get('signature'))}' did not occur in this batch and its stored scenario no longer shows it")
 
     # ---- determinism mini self-test ------------------------------------------------
     det = {"pairs": 0, "mismatches": 0}
